@@ -84,6 +84,31 @@ CHECKS = {
                 note="File-system calls are atomic units; set-up (Memory construction) is done in a quiet phase; "
                      "exceptions of reduce_size/clear themselves are observations; .get() of a shelved reference may "
                      "raise when another actor may have cleared the entry."),
+    "C02": dict(engine="simfs (sessions) + history machine", cat="exploration", ref="DESIGN.md section 3 (C02/C06)",
+                technique="deterministic simulation of histories: seeded operation sequences against one durable cache "
+                          "directory with process restarts (fresh processes), evictions, compression changes and clock "
+                          "jumps as injected events, checked call by call against a reference model",
+                text="Every value returned by a cached call / shelved reference is compared with the plain function's "
+                     "value for the same bound arguments, over generated functions of all parameter-kind layouts with "
+                     "<= 4 parameters (+ method, partial, async), near-colliding argument values and equivalent call forms.",
+                note="Sequential histories (concurrency is C11); functions are pure in their non-ignored arguments; "
+                     "lambdas/closures over differing captures are outside the domain as the property states."),
+    "C06": dict(engine="simfs (sessions) + history machine", cat="exploration", ref="DESIGN.md section 3 (C02/C06)",
+                technique="same simulated histories as C02; oracle = reference model of live cache keys predicting body "
+                          "executions, check_call_in_cache and acceptance of every call Python accepts",
+                text="For every call the number of executions of the function body must be 0 when its key is live and 1 "
+                     "otherwise, across restarts, clears, evictions, expires_after expiry on a simulated clock and "
+                     "compression changes; check_call_in_cache must equal 'key live'; no valid call may be rejected.",
+                note="Key = function + canonical, type-aware bound arguments minus ignored names, computed with "
+                     "inspect.Signature semantics by calling the plain function."),
+    "C18": dict(engine="simfs (single actor, simulated clock)", cat="exploration", ref="DESIGN.md section 3 (C18)",
+                technique="deterministic simulation of access histories on a simulated clock (utime + datetime seam), "
+                          "seeded limits incl. ties and exact fits, declarative tie-aware LRU-prefix oracle",
+                text="After every reduce_size: all given limits hold, every evicted entry was accessed no later than "
+                     "every survivor, the eviction is minimal (some most-recent evicted entry was necessary), survivors "
+                     "are cache hits with correct values and evicted entries recompute exactly once.",
+                note="Single actor; access = last cached call touching the entry (atime written by the harness from the "
+                     "simulated clock); entries exactly at age_limit may go either way."),
 }
 NOT_APPLICABLE = {
     "C03": "pure function of (object, compressor, protocol, target): no schedule, clock, fault or history for a simulator to own; input enumeration is not this technique (its damaged-file cousin is C14, its stateful reader C13)",
